@@ -275,7 +275,7 @@ PROPS = {
         "jl": True,
         "module": "Props.C14",
         "namespace": "Jl.C14",
-        "extra_theorem_files": [("Proofs.Time", "Jl.Time"), ("Proofs.Civil", "Jl.Time")],
+        "extra_theorem_files": [("Proofs.Time", "Jl.Time"), ("Proofs.Civil", "Jl.Time"), ("Proofs.LineTime", "Jl.LineTime")],
         "rule": ("under process zones UTC, +05:30, -03:00, Europe/Paris and America/New_York (time.Local switched in-process, tz database "
                  "embedded): ToTime(src), ToString of the result, ToTimestamp(src) and ToTimestamp(ToTime(src)) for date-time strings with "
                  "explicit offsets (hand-picked boundaries: years 0001 and 9999, offsets +-23:59, leap days, DST gaps and overlaps of both "
@@ -292,7 +292,7 @@ PROPS = {
         "kind": "c13",
         "module": "Props.C13",
         "namespace": "Jl.C13",
-        "extra_theorem_files": [("Proofs.Pairings", "Jl.Pairings"), ("Proofs.RowRoundTrip", "Jl.RowRoundTrip")],
+        "extra_theorem_files": [("Proofs.Pairings", "Jl.Pairings"), ("Proofs.RowRoundTrip", "Jl.RowRoundTrip"), ("Proofs.RowRoundTripN", "Jl.RowRoundTripN")],
         "rule": ("every pairing of 8 formats x (18 raw types + none) — the ~95 of the lossless table AND the pairings outside it (to confirm the "
                  "table is tight) — x boundary and random values of the raw type (integers: bounds, +-1, powers of two; floats: +-0, "
                  "subnormals, extremes, 2^53+1, NaN/Inf; strings: valid UTF-8 incl. escapes-needing characters, look-alikes, and ill-formed "
